@@ -170,6 +170,63 @@ def c12_expected(case):
     return exp, k11
 
 
+def c12_counter_expected(case):
+    """what the property says for the counting / date schedulers over a sequence of calls (one call = one visit of the
+    algo with target.now = dates[row]; the same date may be visited twice)"""
+    dates, calls = case["dates"], case["calls"]
+
+    def make(a):
+        k = a[0]
+        if k == "runonce":
+            st = {"done": False}
+
+            def f(row):
+                r = not st["done"]
+                st["done"] = True
+                return r
+            return f
+        if k == "runafterdays":
+            st = {"left": int(a[1])}
+
+            def f(row):                      # the days are counted in visits
+                if st["left"] > 0:
+                    st["left"] -= 1
+                    return False
+                return True
+            return f
+        if k == "everyn":
+            n, off = int(a[1]), int(a[2])
+            st = {"seen": -1, "last": None}
+
+            def f(row):                      # the k-th distinct date (k = 0, 1, ...) fires iff k >= offset and n | k - offset; once per date
+                if st["last"] == row:
+                    return False
+                st["last"] = row
+                st["seen"] += 1
+                return st["seen"] >= off and (st["seen"] - off) % n == 0
+            return f
+        if k == "runondate":
+            ds = set(a[1])
+            return lambda row: dates[row] in ds
+        if k == "runafterdate":
+            return lambda row: dates[row] > a[1]
+        if k == "not":
+            g = make(a[1])
+            return lambda row: not g(row)
+        if k == "or":
+            gs = [make(x) for x in a[1]]
+
+            def f(row):
+                rs = [g(row) for g in gs]    # Or calls every member
+                return any(rs)
+            return f
+        return None
+    f = make(case["algo"])
+    if f is None:
+        return None
+    return [f(r) for r in calls]
+
+
 def run_c12(run, scratch, seed, tier):
     import random
     import sched_suite as S
@@ -200,6 +257,15 @@ def run_c12(run, scratch, seed, tier):
                     k11_seen += 1
                 else:
                     oracle_fail.append((c, pos, a, b))
+    for c, i, m in res[len(pc):]:
+        exp = c12_counter_expected(c)
+        if exp is None or not i or any(x not in ("T", "F") for x in i):
+            continue
+        got = [x == "T" for x in i]
+        for pos, (a, b) in enumerate(zip(got, exp)):
+            if a != b:
+                oracle_fail.append((c, pos, a, b))
+                break
     if k11_seen:
         run.known_seen.add("c12_edge_date_flag_only")
     st = {"evaluations": len(res), "distinct_nontrivial": nontrivial, "traces_validated_against_impl": len(res) - len(bad),
@@ -323,7 +389,8 @@ def run_c13(run, scratch, seed, tier):
     bst = backtest_suite(run, scratch, seed, n)
     run.add_suite("backtest_runs", bst)
     import gen_backtest
-    ost = backtest_suite(run, scratch, seed + 7, sizes(tier, 150, 2500), name="out_of_bounds_runs", gen=gen_backtest.gen_oob_cases)
+    ost = backtest_suite(run, scratch, seed + 7, sizes(tier, 150, 2500), name="out_of_bounds_runs", gen=gen_backtest.gen_oob_cases,
+                         oracle_fns=[("C13 out of bounds", oracles.c13_out_of_bounds)])
     run.add_suite("out_of_bounds_runs", ost)
 
 
@@ -526,7 +593,7 @@ def run_c14(run, scratch, seed, tier):
 
 
 def run_c15(run, scratch, seed, tier):
-    bst = backtest_suite(run, scratch, seed, sizes(tier, 300, 5000), oracle_fns=[("C15 weights", oracles.c15_weights)])
+    bst = backtest_suite(run, scratch, seed, sizes(tier, 300, 5000), oracle_fns=[("C15 weights", oracles.c15_weights), ("C15 limit deltas", oracles.c15_limit_deltas)])
     run.add_suite("backtest_runs", bst)
     run.cov["rule"] = "per-run trace of temp['weights'] compared with the model bit-for-bit; " + bst["rule"]
     kernel_suite(run, scratch, seed, tier, "C15")
@@ -554,12 +621,18 @@ def run_c04(run, scratch, seed, tier):
     run.cov["rule"] = st["rule"]
     bst = backtest_suite(run, scratch, seed, sizes(tier, 250, 4000))
     run.add_suite("backtest_runs", bst)
+    diffs = list(run.last_diff_cases)
     fst = backtest_suite(run, scratch, seed + 3, sizes(tier, 80, 1500), name="fi_suite", gen=gen_fi_cases)
     run.add_suite("fi_suite", fst)
+    diffs += run.last_diff_cases
     import gen_backtest
     # UpdateRisk reads unit-risk frames that carry their own date index: it must read the row of the current date
     rst = backtest_suite(run, scratch, seed + 5, sizes(tier, 100, 2000), name="risk_suite", gen=gen_backtest.gen_risk_cases)
     run.add_suite("risk_suite", rst)
+    diffs += run.last_diff_cases
+    if diffs:
+        # a correspondence broke: look for an input on which the property itself fails, starting from the disagreeing runs
+        run.add_suite("lookahead_search", suites.lookahead_search(run, scratch, seed, diffs))
 
 
 PROPS["C04"] = {"props_file": "C04.v", "run": run_c04, "level": "other"}
